@@ -165,8 +165,8 @@ theorem clientS_subst {I : List Nat} {c : List Seg} : ∀ (B : List Item) (X : L
       simp only [allIds, List.mem_append, not_or] at ha
       have hc' : t.I ∉ holeIds c := hc t.I (by simp [tplIds])
       simp only [clientS]
-      rw [substHole_comm (Ne.symm ht.1) hc' ha.1 X]
-      exact ih _ (mem_holeIds_subst_other (Ne.symm ht.1) hX) ht.2 ha.2 (fun K hK => hc K (by simp [tplIds, hK]))
+      rw [substHole_comm ht.1 hc' ha.1 X]
+      exact ih _ (mem_holeIds_subst_other ht.1 hX) ht.2 ha.2 (fun K hK => hc K (by simp [tplIds, hK]))
 
 /-- the holes of the document come from the holes of the stream -/
 theorem holeIds_clientS {J : List Nat} : ∀ (B : List Item) (dom : List Seg), J ∈ holeIds (clientS dom B) →
@@ -179,14 +179,17 @@ theorem holeIds_clientS {J : List Nat} : ∀ (B : List Item) (dom : List Seg), J
     cases i with
     | seg g =>
       simp only [clientS] at h
-      rcases ih _ h with h | h
-      · rw [holeIds_append] at h
-        rcases List.mem_append.1 h with h | h
-        · exact Or.inl h
+      rcases ih _ h with h1 | h1
+      · rw [holeIds_append] at h1
+        rcases List.mem_append.1 h1 with h2 | h2
+        · exact Or.inl h2
         · cases g with
-          | lit s => simp [holeIds] at h
-          | hole K fb => simp [holeIds] at h; exact Or.inr (by simp [allIds, h])
-      · exact Or.inr (by cases g <;> simp [allIds, h])
+          | lit s => simp [holeIds] at h2
+          | hole K fb => simp [holeIds] at h2; exact Or.inr (by simp [allIds, h2])
+      · refine Or.inr ?_
+        cases g with
+        | lit s => simpa [allIds] using h1
+        | hole K fb => simp [allIds, h1]
     | tpl t =>
       simp only [clientS] at h
       rcases ih _ h with h | h
@@ -214,5 +217,746 @@ theorem nodup_clientS : ∀ (B : List Item) (dom : List Seg) (R : List (List Nat
       apply ih
       apply nodup_subst
       simpa [allIds] using h
+
+
+/-! ### what executing an out-of-order program does to a builder -/
+
+structure NodeOk (p : PendOoo) : Prop where
+  replace : p.replace = true
+  nonce : p.nonce = none
+  wf : OooWf p.body
+  clean : cleanOps p.body = true
+
+def nodeDoc (p : PendOoo) : Str := oooDocOps p.body
+
+/-- `σ` knows the document of every node -/
+def Knows (σ : List Nat → Option Str) (ps : List PendOoo) : Prop :=
+  ∀ p ∈ ps, ∀ I, p.id = some I → σ I = some (nodeDoc p)
+
+theorem pushFallback_str (b : Builder) (ids : List Nat) (s : Str) (h : b.id = some ids) :
+    (b.pushFallback s).syncBuf = b.syncBuf ++ (Seg.hole ids s).str ∧ (b.pushFallback s).chunks = b.chunks ∧
+    (b.pushFallback s).id = some ids ∧ (b.pushFallback s).pending = b.pending ∧
+    (b.pushFallback s).pendingOoo = b.pendingOoo := by
+  refine ⟨?_, ?_, ?_, ?_, ?_⟩
+  · simp [Builder.pushFallback, Builder.writeMarker, h, Seg.str, opening, closing]
+  · simp [Builder.pushFallback, Builder.writeMarker, h]
+  · simp [Builder.pushFallback, Builder.writeMarker, h]
+  · simp [Builder.pushFallback, Builder.writeMarker, h]
+  · simp [Builder.pushFallback, Builder.writeMarker, h]
+
+theorem exec_segs {ops : List Op} (hw : OooWf ops) (env : Env) : ∀ (b : Builder), cleanOps ops = true →
+    (∃ ids, b.id = some ids) →
+    ∃ (segs : List Seg) (ps : List PendOoo),
+      (execOps env ops b).syncBuf = b.syncBuf ++ segsStr segs ∧
+      (execOps env ops b).chunks = b.chunks ++ ps.map Chunk.ooo ∧
+      (∃ ids', (execOps env ops b).id = some ids') ∧
+      (∀ g ∈ segs, g.ok) ∧ (holeIds segs).map some = ps.map (·.id) ∧ (∀ p ∈ ps, NodeOk p) ∧
+      ∀ σ, Knows σ ps → fill σ segs = oooDocOps ops := by
+  induction hw with
+  | nil =>
+    intro b _ hid
+    exact ⟨[], [], by simp [execOps, segsStr], by simp [execOps], hid, by simp, rfl, by simp,
+      fun _ _ => by simp [fill, oooDocOps]⟩
+  | @sync s os _ ih =>
+    intro b hc hid
+    simp only [cleanOps, cleanOp, Bool.and_eq_true] at hc
+    obtain ⟨segs, ps, h1, h2, h3, h4, h5, h6, h7⟩ := ih (b.pushSync s) hc.2 (by simpa [Builder.pushSync] using hid)
+    refine ⟨Seg.lit s :: segs, ps, ?_, ?_, h3, ?_, by simpa [holeIds] using h5, h6, ?_⟩
+    · simp only [execOps, execOp]; rw [h1]; simp [Builder.pushSync, segsStr, Seg.str]
+    · simp only [execOps, execOp]; rw [h2]; simp [Builder.pushSync]
+    · intro g hg
+      simp only [List.mem_cons] at hg
+      rcases hg with hg | hg
+      · subst hg; exact clean_of_bool hc.1
+      · exact h4 g hg
+    · intro σ hσ; simp [fill, oooDocOps, oooDocOp, h7 σ hσ]
+  | @nextId os _ ih =>
+    intro b hc hid
+    simp only [cleanOps, cleanOp, Bool.true_and] at hc
+    obtain ⟨ids, hids⟩ := hid
+    obtain ⟨segs, ps, h1, h2, h3, h4, h5, h6, h7⟩ := ih b.nextId hc ⟨Builder.bumpLast ids, by simp [Builder.nextId, hids]⟩
+    refine ⟨segs, ps, ?_, ?_, h3, h4, h5, h6, ?_⟩
+    · simp only [execOps, execOp]; rw [h1]; simp [Builder.nextId]
+    · simp only [execOps, execOp]; rw [h2]; simp [Builder.nextId]
+    · intro σ hσ; simp [oooDocOps, oooDocOp, h7 σ hσ]
+  | @triple s fut nonce body os hbody _ _ ih =>
+    intro b hc hid
+    simp only [cleanOps, cleanOp, Bool.and_eq_true, Bool.true_and] at hc
+    obtain ⟨hcs, ⟨hcb, hcn⟩, hcos⟩ := hc
+    obtain ⟨ids, hids⟩ := hid
+    have hid1 : b.nextId.id = some (Builder.bumpLast ids) := by simp [Builder.nextId, hids]
+    obtain ⟨f1, f2, f3, f4, f5⟩ := pushFallback_str b.nextId (Builder.bumpLast ids) s hid1
+    let p : PendOoo := { fut := fut, born := env.now, id := (b.nextId.pushFallback s).id, replace := true,
+                         body := body, nonce := nonce }
+    obtain ⟨segs, ps, h1, h2, h3, h4, h5, h6, h7⟩ := ih ((b.nextId.pushFallback s).pushOoo p) hcos
+      ⟨_, by simpa [Builder.pushOoo] using f3⟩
+    have hpid : p.id = some (Builder.bumpLast ids) := f3
+    refine ⟨Seg.hole (Builder.bumpLast ids) s :: segs, p :: ps, ?_, ?_, h3, ?_, ?_, ?_, ?_⟩
+    · have e : ((b.nextId.pushFallback s).pushOoo p).syncBuf = b.syncBuf ++ (Seg.hole (Builder.bumpLast ids) s).str := by
+        simp only [Builder.pushOoo]; rw [f1]; rfl
+      simp only [execOps, execOp]
+      show (execOps env os ((b.nextId.pushFallback s).pushOoo p)).syncBuf = _
+      rw [h1, e]; simp [segsStr]
+    · have e : ((b.nextId.pushFallback s).pushOoo p).chunks = b.chunks ++ [Chunk.ooo p] := by
+        simp only [Builder.pushOoo]; rw [f2]; rfl
+      simp only [execOps, execOp]
+      show (execOps env os ((b.nextId.pushFallback s).pushOoo p)).chunks = _
+      rw [h2, e]; simp
+    · intro g hg
+      simp only [List.mem_cons] at hg
+      rcases hg with hg | hg
+      · subst hg; exact clean_of_bool hcs
+      · exact h4 g hg
+    · simp [holeIds, h5, hpid]
+    · intro q hq
+      simp only [List.mem_cons] at hq
+      rcases hq with hq | hq
+      · subst hq
+        exact ⟨rfl, by simpa [cleanNonce] using hcn, hbody, hcb⟩
+      · exact h6 q hq
+    · intro σ hσ
+      have hp := hσ p (by simp) _ hpid
+      have := h7 σ (fun q hq => hσ q (by simp [hq]))
+      simp [fill, oooDocOps, oooDocOp, hp, nodeDoc, this]
+      rfl
+  | @ite fut t e os _ _ hte _ iht ihe ihos =>
+    intro b hc hid
+    simp only [cleanOps, cleanOp, Bool.and_eq_true] at hc
+    simp only [execOps, execOp]
+    split
+    · obtain ⟨segs1, ps1, a1, a2, a3, a4, a5, a6, a7⟩ := iht b hc.1.1 hid
+      obtain ⟨segs2, ps2, b1, b2, b3, b4, b5, b6, b7⟩ := ihos _ hc.2 a3
+      refine ⟨segs1 ++ segs2, ps1 ++ ps2, ?_, ?_, b3, ?_, ?_, ?_, ?_⟩
+      · rw [b1, a1]; simp [segsStr_append]
+      · rw [b2, a2]; simp
+      · intro g hg; rcases List.mem_append.1 hg with hg | hg
+        · exact a4 g hg
+        · exact b4 g hg
+      · simp [holeIds_append, a5, b5]
+      · intro q hq; rcases List.mem_append.1 hq with hq | hq
+        · exact a6 q hq
+        · exact b6 q hq
+      · intro σ hσ
+        rw [fill_append, a7 σ (fun q hq => hσ q (by simp [hq])), b7 σ (fun q hq => hσ q (by simp [hq]))]
+        simp [oooDocOps, oooDocOp]
+    · obtain ⟨segs1, ps1, a1, a2, a3, a4, a5, a6, a7⟩ := ihe b hc.1.2 hid
+      obtain ⟨segs2, ps2, b1, b2, b3, b4, b5, b6, b7⟩ := ihos _ hc.2 a3
+      refine ⟨segs1 ++ segs2, ps1 ++ ps2, ?_, ?_, b3, ?_, ?_, ?_, ?_⟩
+      · rw [b1, a1]; simp [segsStr_append]
+      · rw [b2, a2]; simp
+      · intro g hg; rcases List.mem_append.1 hg with hg | hg
+        · exact a4 g hg
+        · exact b4 g hg
+      · simp [holeIds_append, a5, b5]
+      · intro q hq; rcases List.mem_append.1 hq with hq | hq
+        · exact a6 q hq
+        · exact b6 q hq
+      · intro σ hσ
+        rw [fill_append, a7 σ (fun q hq => hσ q (by simp [hq])), b7 σ (fun q hq => hσ q (by simp [hq]))]
+        simp [oooDocOps, oooDocOp, hte]
+  | @sub body os _ _ ihb ihos =>
+    intro b hc hid
+    simp only [cleanOps, cleanOp, Bool.and_eq_true] at hc
+    obtain ⟨ids, hids⟩ := hid
+    obtain ⟨segs1, ps1, a1, a2, a3, a4, a5, a6, a7⟩ := ihb (Builder.new b.id) hc.1 ⟨ids, by simp [Builder.new, hids]⟩
+    -- the sub-builder holds only out-of-order chunks: `append` does not flush
+    have hall : (execOps env body (Builder.new b.id)).chunks.any (fun c => !c.isOoo) = false := by
+      rw [a2]; simp [Builder.new, Chunk.isOoo]
+    obtain ⟨ids', hids'⟩ := a3
+    have happ : (b.append (execOps env body (Builder.new b.id))).syncBuf = b.syncBuf ++ segsStr segs1 ∧
+        (b.append (execOps env body (Builder.new b.id))).chunks = b.chunks ++ ps1.map Chunk.ooo ∧
+        (b.append (execOps env body (Builder.new b.id))).id = some ids' := by
+      unfold Builder.append
+      rw [hall]
+      simp only [Bool.false_eq_true, if_false]
+      refine ⟨?_, ?_, ?_⟩
+      · rw [a1]; simp [Builder.new]
+      · rw [a2]; simp [Builder.new]
+      · rw [hids']; simp
+    obtain ⟨segs2, ps2, b1, b2, b3, b4, b5, b6, b7⟩ := ihos _ hc.2 ⟨_, happ.2.2⟩
+    refine ⟨segs1 ++ segs2, ps1 ++ ps2, ?_, ?_, b3, ?_, ?_, ?_, ?_⟩
+    · simp only [execOps, execOp]; rw [b1, happ.1]; simp [segsStr_append]
+    · simp only [execOps, execOp]; rw [b2, happ.2.1]; simp
+    · intro g hg; rcases List.mem_append.1 hg with hg | hg
+      · exact a4 g hg
+      · exact b4 g hg
+    · simp [holeIds_append, a5, b5]
+    · intro q hq; rcases List.mem_append.1 hq with hq | hq
+      · exact a6 q hq
+      · exact b6 q hq
+    · intro σ hσ
+      rw [fill_append, a7 σ (fun q hq => hσ q (by simp [hq])), b7 σ (fun q hq => hσ q (by simp [hq]))]
+      simp [oooDocOps, oooDocOp]
+
+
+/-! ### the resolved out-of-order chunk and the two splice loops -/
+
+theorem finishChunks_ooo (ps : List PendOoo) (t : Str) :
+    Builder.finishChunks (ps.map Chunk.ooo) t = ps.map Chunk.ooo ++ [Chunk.sync t] := by
+  induction ps with
+  | nil => rfl
+  | cons p ps ih =>
+    cases ps with
+    | nil => rfl
+    | cons q ps =>
+      simp only [List.map_cons] at ih ⊢
+      rw [Builder.finishChunks, ih]; simp
+
+/-- the text chunk at the end of a resolved list (absent when the text is empty) -/
+def tailChunk (t : Str) : List Chunk := if t.isEmpty then [] else [Chunk.sync t]
+
+theorem finish_take_ooo (b : Builder) (ps : List PendOoo) (h : b.chunks = ps.map Chunk.ooo) :
+    b.finish.takeChunks = ps.map Chunk.ooo ++ tailChunk b.syncBuf := by
+  unfold Builder.finish Builder.takeChunks Builder.flushed tailChunk
+  by_cases hb : b.syncBuf.isEmpty = true
+  · simp [hb, h]
+  · simp [hb, h, finishChunks_ooo]
+
+theorem nodup_of_map_some {α : Type} : ∀ {l : List α}, (l.map some).Nodup → l.Nodup
+  | [], _ => List.nodup_nil
+  | a :: l, h => by
+    simp only [List.map_cons, List.nodup_cons, List.mem_map, not_exists, not_and] at h
+    exact List.nodup_cons.2 ⟨fun hm => h.1 a hm rfl, nodup_of_map_some h.2⟩
+
+theorem resolveOoo_segs (env : Env) (p : PendOoo) (hp : NodeOk p) (I : List Nat) (hI : p.id = some I) :
+    ∃ (segs : List Seg) (ps : List PendOoo),
+      (resolveOoo env p).id = piecesStr I ∧ (resolveOoo env p).replace = true ∧ (resolveOoo env p).nonce = none ∧
+      (resolveOoo env p).chunks = ps.map Chunk.ooo ++ tailChunk (segsStr segs) ∧
+      (∀ g ∈ segs, g.ok) ∧ (holeIds segs).map some = ps.map (·.id) ∧ (∀ q ∈ ps, NodeOk q) ∧
+      (∀ σ, Knows σ ps → fill σ segs = nodeDoc p) ∧
+      (∀ i ∈ holeIds segs, ∃ j, 1 ≤ j ∧ i = I ++ [j]) ∧ (holeIds segs).Nodup := by
+  have hids := resolveOoo_ids env p I hI hp.wf
+  unfold resolveOoo at hids ⊢
+  simp only [hp.replace, if_true] at hids ⊢
+  obtain ⟨segs, ps, h1, h2, _, h4, h5, h6, h7⟩ := exec_segs hp.wf env
+    ({ (Builder.new p.id) with id := (Builder.new p.id).id.map (· ++ [0]) } : Builder) hp.clean
+    ⟨I ++ [0], by simp [Builder.new, hI]⟩
+  have hch := finish_take_ooo _ ps (by rw [h2]; simp [Builder.new])
+  rw [h1] at hch
+  simp only [Builder.new, List.nil_append] at hch
+  refine ⟨segs, ps, hids.1, trivial, hp.nonce, ?_, h4, h5, h6, h7, ?_, ?_⟩
+  · simpa [Builder.new] using hch
+  · intro i hi
+    have hmem : some i ∈ oooIds (ps.map Chunk.ooo ++ tailChunk (segsStr segs)) := by
+      have : oooIds (ps.map Chunk.ooo ++ tailChunk (segsStr segs)) = ps.map (·.id) := by
+        rw [oooIds_append]
+        have e1 : ∀ (l : List PendOoo), oooIds (l.map Chunk.ooo) = l.map (·.id) := by
+          intro l; induction l with
+          | nil => rfl
+          | cons q l ih => simp [oooIds, ih]
+        have e2 : oooIds (tailChunk (segsStr segs)) = [] := by unfold tailChunk; split <;> rfl
+        rw [e1, e2]; simp
+      rw [this, ← h5]
+      exact List.mem_map.2 ⟨i, hi, rfl⟩
+    have hch' : (Builder.finish (execOps env p.body
+        { (Builder.new p.id) with id := (Builder.new p.id).id.map (· ++ [0]) })).takeChunks
+        = ps.map Chunk.ooo ++ tailChunk (segsStr segs) := by simpa [Builder.new] using hch
+    rw [← hch'] at hmem
+    obtain ⟨j, hj, hij⟩ := hids.2.1 _ hmem
+    exact ⟨j, hj, Option.some.inj hij⟩
+  · have hch' : (Builder.finish (execOps env p.body
+        { (Builder.new p.id) with id := (Builder.new p.id).id.map (· ++ [0]) })).takeChunks
+        = ps.map Chunk.ooo ++ tailChunk (segsStr segs) := by simpa [Builder.new] using hch
+    have hn := hids.2.2
+    rw [hch'] at hn
+    have : oooIds (ps.map Chunk.ooo ++ tailChunk (segsStr segs)) = (holeIds segs).map some := by
+      rw [oooIds_append, h5]
+      have e1 : ∀ (l : List PendOoo), oooIds (l.map Chunk.ooo) = l.map (·.id) := by
+        intro l; induction l with
+        | nil => rfl
+        | cons q l ih => simp [oooIds, ih]
+      have e2 : oooIds (tailChunk (segsStr segs)) = [] := by unfold tailChunk; split <;> rfl
+      rw [e1, e2]; simp
+    rw [this] at hn
+    exact nodup_of_map_some hn
+
+theorem foldl_spliceFn_ooo (ps : List PendOoo) (x : Str) (d : List Chunk) :
+    (ps.map Chunk.ooo).reverse.foldl spliceFn (x, d) = (x, ps.map Chunk.ooo ++ d) := by
+  induction ps generalizing d with
+  | nil => rfl
+  | cons p ps ih =>
+    simp only [List.map_cons, List.reverse_cons, List.foldl_append, List.foldl_cons, List.foldl_nil, ih]
+    simp [spliceFn]
+
+theorem splice_resolved (ps : List PendOoo) (t : Str) (x : Str) (d : List Chunk) :
+    (ps.map Chunk.ooo ++ tailChunk t).reverse.foldl spliceFn (x, d) = (x ++ t, ps.map Chunk.ooo ++ d) := by
+  unfold tailChunk
+  split
+  · rename_i h
+    have : t = [] := by simpa using h
+    subst this
+    simp only [List.append_nil]
+    rw [foldl_spliceFn_ooo]
+  · simp only [List.reverse_append, List.reverse_cons, List.reverse_nil, List.nil_append, List.foldl_append,
+      List.foldl_cons, List.foldl_nil]
+    rw [show spliceFn (x, d) (Chunk.sync t) = (x ++ t, d) from rfl, foldl_spliceFn_ooo]
+
+theorem foldl_pushFront_eq (xs d : List Chunk) : xs.foldl (fun d c => c :: d) d = xs.reverse ++ d := by
+  induction xs generalizing d with
+  | nil => rfl
+  | cons x xs ih => simp [ih]
+
+
+/-! ### the invariant of an out-of-order stream -/
+
+def properPrefix (I K : List Nat) : Prop := ∃ t, t ≠ [] ∧ K = I ++ t
+
+/-- ids of the holes inside the template contents of a buffer / of its top-level holes -/
+def contentIds : List Item → List (List Nat)
+  | [] => []
+  | .seg _ :: r => contentIds r
+  | .tpl t :: r => holeIds t.content ++ contentIds r
+
+def topIds : List Item → List (List Nat)
+  | [] => []
+  | .seg (.hole I _) :: r => I :: topIds r
+  | .seg (.lit _) :: r => topIds r
+  | .tpl _ :: r => topIds r
+
+theorem contentIds_append (a b : List Item) : contentIds (a ++ b) = contentIds a ++ contentIds b := by
+  induction a with
+  | nil => rfl
+  | cons i is ih => cases i <;> simp [contentIds, ih]
+
+theorem contentIds_segItems (gs : List Seg) : contentIds (segItems gs) = [] := by
+  induction gs with
+  | nil => rfl
+  | cons g gs ih => simpa [segItems, contentIds] using ih
+
+theorem mem_allIds_split {I : List Nat} : ∀ {B : List Item}, I ∈ allIds B → I ∈ topIds B ∨ I ∈ contentIds B
+  | [], h => by simp [allIds] at h
+  | .seg (.lit s) :: r, h => by
+    simpa [topIds, contentIds] using mem_allIds_split (B := r) (by simpa [allIds] using h)
+  | .seg (.hole J fb) :: r, h => by
+    simp only [allIds, List.mem_cons] at h
+    rcases h with h | h
+    · exact Or.inl (by simp [topIds, h])
+    · rcases mem_allIds_split h with h | h
+      · exact Or.inl (by simp [topIds, h])
+      · exact Or.inr (by simpa [contentIds] using h)
+  | .tpl t :: r, h => by
+    simp only [allIds, List.mem_append] at h
+    rcases h with h | h
+    · exact Or.inr (by simp [contentIds, h])
+    · rcases mem_allIds_split h with h | h
+      · exact Or.inl (by simpa [topIds] using h)
+      · exact Or.inr (by simp [contentIds, h])
+
+theorem split_topIds {I : List Nat} : ∀ {B : List Item}, I ∈ topIds B →
+    ∃ B1 fb B2, B = B1 ++ Item.seg (Seg.hole I fb) :: B2
+  | [], h => by simp [topIds] at h
+  | .seg (.lit s) :: r, h => by
+    obtain ⟨B1, fb, B2, e⟩ := split_topIds (B := r) (by simpa [topIds] using h)
+    exact ⟨.seg (.lit s) :: B1, fb, B2, by simp [e]⟩
+  | .seg (.hole J fb) :: r, h => by
+    by_cases hJ : J = I
+    · subst hJ; exact ⟨[], fb, r, rfl⟩
+    · have : I ∈ topIds r := by
+        simp only [topIds, List.mem_cons] at h
+        rcases h with h | h
+        · exact absurd h.symm hJ
+        · exact h
+      obtain ⟨B1, fb', B2, e⟩ := split_topIds this
+      exact ⟨.seg (.hole J fb) :: B1, fb', B2, by simp [e]⟩
+  | .tpl t :: r, h => by
+    obtain ⟨B1, fb, B2, e⟩ := split_topIds (B := r) (by simpa [topIds] using h)
+    exact ⟨.tpl t :: B1, fb, B2, by simp [e]⟩
+
+theorem holeIds_of_empty : ∀ {gs : List Seg}, segsStr gs = [] → holeIds gs = []
+  | [], _ => rfl
+  | .lit s :: gs, h => by
+    simp only [segsStr, List.append_eq_nil_iff] at h
+    simpa [holeIds] using holeIds_of_empty h.2
+  | .hole I fb :: gs, h => by
+    simp only [segsStr, Seg.str, List.append_eq_nil_iff] at h
+    have := h.1.1.1
+    rw [opening_eq] at this
+    cases this
+
+theorem items_of_empty : ∀ {B : List Item}, itemsStr B = [] → allIds B = [] ∧ tplIds B = [] ∧ contentIds B = []
+  | [], _ => ⟨rfl, rfl, rfl⟩
+  | .seg (.lit s) :: r, h => by
+    simp only [itemsStr, List.append_eq_nil_iff] at h
+    simpa [allIds, tplIds, contentIds] using items_of_empty h.2
+  | .seg (.hole I fb) :: r, h => by
+    simp only [itemsStr, Item.str, Seg.str, List.append_eq_nil_iff] at h
+    have := h.1.1.1
+    rw [opening_eq] at this
+    cases this
+  | .tpl t :: r, h => by
+    simp only [itemsStr, Item.str, Tpl.str, List.append_eq_nil_iff] at h
+    have := h.1.1.1
+    rw [pushStart_eq] at this
+    simp only [List.append_eq_nil_iff] at this
+    have h0 : tplOpen ≠ [] := by decide
+    exact absurd this.1.1 h0
+
+structure OInv (E Y : Str) (b : Builder) (ys bs : List Item) (tail : List Seg) (cs : List PendOoo)
+    (σ : List Nat → Option Str) : Prop where
+  hY : Y = itemsStr ys
+  hB : b.syncBuf = itemsStr bs
+  hP : b.pending = none
+  hC : b.chunks = cs.map Chunk.ooo ++ tailChunk (segsStr tail)
+  okI : ∀ i ∈ ys ++ bs, i.ok
+  okT : ∀ g ∈ tail, g.ok
+  ndText : (allIds (ys ++ bs) ++ holeIds tail).Nodup
+  ndTpl : (tplIds (ys ++ bs)).Nodup
+  okN : ∀ p ∈ cs ++ b.pendingOoo, NodeOk p ∧ ∃ I, p.id = some I
+  ndOut : ((cs ++ b.pendingOoo).map (·.id)).Nodup
+  mem : ∀ I, I ∈ holeIds (clientS [] (ys ++ bs) ++ tail) ↔ ∃ p ∈ cs ++ b.pendingOoo, p.id = some I
+  knows : Knows σ (cs ++ b.pendingOoo)
+  doc : fill σ (clientS [] (ys ++ bs) ++ tail) = E
+  outTpl : ∀ p ∈ cs ++ b.pendingOoo, ∀ I, p.id = some I → I ∉ tplIds (ys ++ bs)
+  fresh : ∀ p ∈ cs ++ b.pendingOoo, ∀ I, p.id = some I →
+    ∀ K ∈ allIds (ys ++ bs) ++ holeIds tail ++ tplIds (ys ++ bs), ¬ properPrefix I K
+  inTpl : ∀ I ∈ contentIds bs, ∃ p ∈ cs, p.id = some I
+
+/-- the stream state `b`, having yielded `Y`, will end in the document `E` -/
+def ORel (E Y : Str) (b : Builder) : Prop :=
+  ∃ ys bs tail cs σ, OInv E Y b ys bs tail cs σ
+
+/-- yield the buffer -/
+theorem OInv.flush {E Y b ys bs tail cs σ} (h : OInv E Y b ys bs tail cs σ) :
+    OInv E (Y ++ b.syncBuf) { b with syncBuf := [] } (ys ++ bs) [] tail cs σ := by
+  refine ⟨by rw [h.hY, h.hB, itemsStr_append], rfl, h.hP, h.hC, by simpa using h.okI, h.okT, by simpa using h.ndText,
+    by simpa using h.ndTpl, h.okN, h.ndOut, by simpa using h.mem, h.knows, by simpa using h.doc,
+    by simpa using h.outTpl, by simpa using h.fresh, by simp [contentIds]⟩
+
+/-- the out-of-order nodes only matter as a set -/
+theorem OInv.perm {E Y b ys bs tail cs σ} (h : OInv E Y b ys bs tail cs σ) (cs' po' : List PendOoo)
+    (chunks' : List Chunk) (hch : chunks' = cs'.map Chunk.ooo ++ tailChunk (segsStr tail))
+    (hperm : (cs' ++ po').Perm (cs ++ b.pendingOoo))
+    (hin : ∀ I ∈ contentIds bs, ∃ p ∈ cs', p.id = some I) :
+    OInv E Y { b with chunks := chunks', pendingOoo := po' } ys bs tail cs' σ := by
+  have hm : ∀ p, p ∈ cs' ++ po' ↔ p ∈ cs ++ b.pendingOoo := fun p => hperm.mem_iff
+  refine ⟨h.hY, h.hB, h.hP, hch, h.okI, h.okT, h.ndText, h.ndTpl, ?_, ?_, ?_, ?_, h.doc, ?_, ?_, hin⟩
+  · intro p hp; exact h.okN p ((hm p).1 hp)
+  · exact (List.Perm.nodup_iff (hperm.map _)).2 h.ndOut
+  · intro I; rw [h.mem I]
+    constructor
+    · rintro ⟨p, hp, hI⟩; exact ⟨p, (hm p).2 hp, hI⟩
+    · rintro ⟨p, hp, hI⟩; exact ⟨p, (hm p).1 hp, hI⟩
+  · intro p hp; exact h.knows p ((hm p).1 hp)
+  · intro p hp; exact h.outTpl p ((hm p).1 hp)
+  · intro p hp; exact h.fresh p ((hm p).1 hp)
+
+/-- the text chunk at the end of the queue moves into the buffer -/
+theorem OInv.takeTail {E Y b ys bs tail σ} (h : OInv E Y b ys bs tail [] σ) :
+    OInv E Y { b with syncBuf := b.syncBuf ++ segsStr tail, chunks := [] } ys (bs ++ segItems tail) [] [] σ := by
+  have e1 : clientS [] (ys ++ (bs ++ segItems tail)) ++ [] = clientS [] (ys ++ bs) ++ tail := by
+    rw [← List.append_assoc, clientS_append, clientS_segItems]; simp
+  have e2 : allIds (ys ++ (bs ++ segItems tail)) ++ holeIds [] = allIds (ys ++ bs) ++ holeIds tail := by
+    rw [← List.append_assoc, allIds_append, allIds_segItems]; simp [holeIds]
+  have e3 : tplIds (ys ++ (bs ++ segItems tail)) = tplIds (ys ++ bs) := by
+    rw [← List.append_assoc, tplIds_append, tplIds_segItems]; simp
+  refine ⟨h.hY, ?_, h.hP, by simp [tailChunk, segsStr], ?_, by simp, by rw [e2]; exact h.ndText, by rw [e3]; exact h.ndTpl,
+    h.okN, h.ndOut, by rw [e1]; exact h.mem, h.knows, by rw [e1]; exact h.doc, by rw [e3]; exact h.outTpl, ?_, ?_⟩
+  · simp [itemsStr_append, itemsStr_segItems, h.hB]
+  · intro i hi
+    rw [← List.append_assoc] at hi
+    rcases List.mem_append.1 hi with hi | hi
+    · exact h.okI i hi
+    · simp only [segItems, List.mem_map] at hi
+      obtain ⟨g, hg, rfl⟩ := hi
+      exact h.okT g hg
+  · intro p hp I hI K hK
+    rw [e3] at hK
+    have : K ∈ allIds (ys ++ bs) ++ holeIds tail ++ tplIds (ys ++ bs) := by
+      rw [← e2]; simpa [holeIds] using hK
+    exact h.fresh p hp I hI K this
+  · intro I hI
+    rw [contentIds_append, contentIds_segItems] at hI
+    exact h.inTpl I (by simpa using hI)
+
+
+/-! ### resolving one out-of-order node -/
+
+theorem nodup_map_some {α : Type} : ∀ {l : List α}, l.Nodup → (l.map some).Nodup
+  | [], _ => List.nodup_nil
+  | a :: l, h => by
+    have h' := List.nodup_cons.1 h
+    simp only [List.map_cons, List.nodup_cons, List.mem_map, not_exists, not_and]
+    exact ⟨fun x hx he => h'.1 (by cases he; exact hx), nodup_map_some h'.2⟩
+
+theorem eq_of_nodup_map_id : ∀ {ps : List PendOoo}, (ps.map (·.id)).Nodup → ∀ {q q' : PendOoo}, q ∈ ps → q' ∈ ps →
+    q.id = q'.id → q = q'
+  | [], _, _, _, h, _, _ => by cases h
+  | a :: ps, hn, q, q', hq, hq', he => by
+    simp only [List.map_cons, List.nodup_cons, List.mem_map, not_exists, not_and] at hn
+    simp only [List.mem_cons] at hq hq'
+    rcases hq with rfl | hq <;> rcases hq' with rfl | hq'
+    · rfl
+    · exact absurd he.symm (hn.1 q' hq')
+    · exact absurd he (hn.1 q hq)
+    · exact eq_of_nodup_map_id hn.2 hq hq' he
+
+theorem find_node {ps : List PendOoo} (hn : (ps.map (·.id)).Nodup) {q : PendOoo} (hq : q ∈ ps) {J : List Nat}
+    (hJ : q.id = some J) : ps.find? (fun q => q.id == some J) = some q := by
+  cases h : ps.find? (fun q => q.id == some J) with
+  | none =>
+    have := List.find?_eq_none.1 h q hq
+    simp [hJ] at this
+  | some q' =>
+    have h1 := List.find?_some h
+    have h2 := List.mem_of_find?_eq_some h
+    simp only [beq_iff_eq] at h1
+    rw [eq_of_nodup_map_id hn hq h2 (hJ.trans h1.symm)]
+
+/-- resolving the node with id `I`: its hole is replaced by the node's segments, its children become outstanding -/
+theorem resolve_sem {σ : List Nat → Option Str} {D0 tail segsT : List Seg} {I : List Nat} {p : PendOoo}
+    {psC rest cs' : List PendOoo}
+    (hI : I ∈ holeIds D0) (hnd : (holeIds (D0 ++ tail)).Nodup) (hp : p.id = some I)
+    (hmem : ∀ J, J ∈ holeIds (D0 ++ tail) ↔ ∃ q ∈ p :: rest, q.id = some J)
+    (hout : ((p :: rest).map (·.id)).Nodup)
+    (hknows : Knows σ (p :: rest))
+    (hlink : (holeIds segsT).map some = psC.map (·.id)) (hndC : (holeIds segsT).Nodup)
+    (hfill : ∀ σ', Knows σ' psC → fill σ' segsT = nodeDoc p)
+    (hfresh : ∀ K ∈ holeIds segsT, K ∉ holeIds (D0 ++ tail))
+    (hcs : ∀ q, q ∈ cs' ↔ q ∈ psC) :
+    ∃ σ', Knows σ' (cs' ++ rest) ∧
+      fill σ' (substHole I segsT D0 ++ tail) = fill σ (D0 ++ tail) ∧
+      (∀ J, J ∈ holeIds (substHole I segsT D0 ++ tail) ↔ ∃ q ∈ cs' ++ rest, q.id = some J) := by
+  obtain ⟨X, fb, Z, h1, hX, h3⟩ := substHole_split (c := segsT) hI
+  have hndC' : (psC.map (·.id)).Nodup := by
+    rw [← hlink]; exact nodup_map_some hndC
+  let σ' : List Nat → Option Str := fun J =>
+    if J ∈ holeIds segsT then (psC.find? (fun q => q.id == some J)).map nodeDoc else σ J
+  have hσold : ∀ J, J ∈ holeIds (D0 ++ tail) → σ' J = σ J := by
+    intro J hJ
+    have : J ∉ holeIds segsT := fun h => hfresh J h hJ
+    simp [σ', this]
+  have hkC : Knows σ' psC := by
+    intro q hq J hJ
+    have hJm : J ∈ holeIds segsT := by
+      have : some J ∈ psC.map (·.id) := List.mem_map.2 ⟨q, hq, hJ⟩
+      rw [← hlink] at this
+      obtain ⟨J', hJ', he⟩ := List.mem_map.1 this
+      cases he; exact hJ'
+    simp only [σ', hJm, if_true, find_node hndC' hq hJ, Option.map_some]
+  refine ⟨σ', ?_, ?_, ?_⟩
+  · intro q hq J hJ
+    rcases List.mem_append.1 hq with hq | hq
+    · exact hkC q ((hcs q).1 hq) J hJ
+    · have hJD : J ∈ holeIds (D0 ++ tail) := (hmem J).2 ⟨q, by simp [hq], hJ⟩
+      rw [hσold J hJD]
+      exact hknows q (by simp [hq]) J hJ
+  · rw [h3, h1]
+    have hσI : σ I = some (nodeDoc p) := hknows p (by simp) I hp
+    have hXm : ∀ J ∈ holeIds X, σ' J = σ J := fun J hJ => hσold J (by rw [h1]; simp [holeIds_append, hJ])
+    have hZm : ∀ J ∈ holeIds Z, σ' J = σ J := fun J hJ => hσold J (by rw [h1]; simp [holeIds_append, holeIds, hJ])
+    have hTm : ∀ J ∈ holeIds tail, σ' J = σ J := fun J hJ => hσold J (by simp [holeIds_append, hJ])
+    simp only [fill_append, fill, hσI]
+    rw [fill_congr hXm, fill_congr hZm, fill_congr hTm, hfill σ' hkC]
+    simp
+  · intro J
+    have hIZ : I ∉ holeIds Z ∧ I ∉ holeIds tail := by
+      rw [h1] at hnd
+      simp only [holeIds_append, holeIds, List.append_assoc] at hnd
+      have := (List.nodup_append.1 hnd).2.1
+      have := (List.nodup_cons.1 this).1
+      simpa using this
+    rw [h3]
+    simp only [holeIds_append, List.mem_append]
+    constructor
+    · rintro (((hJ | hJ) | hJ) | hJ)
+      · have : J ∈ holeIds (D0 ++ tail) := by rw [h1]; simp [holeIds_append, hJ]
+        obtain ⟨q, hq, hqJ⟩ := (hmem J).1 this
+        simp only [List.mem_cons] at hq
+        rcases hq with rfl | hq
+        · rw [hp] at hqJ; cases hqJ; exact absurd hJ hX
+        · exact ⟨q, Or.inr hq, hqJ⟩
+      · have : some J ∈ psC.map (·.id) := by rw [← hlink]; exact List.mem_map.2 ⟨J, hJ, rfl⟩
+        obtain ⟨q, hq, hqJ⟩ := List.mem_map.1 this
+        exact ⟨q, Or.inl ((hcs q).2 hq), hqJ⟩
+      · have : J ∈ holeIds (D0 ++ tail) := by rw [h1]; simp [holeIds_append, holeIds, hJ]
+        obtain ⟨q, hq, hqJ⟩ := (hmem J).1 this
+        simp only [List.mem_cons] at hq
+        rcases hq with rfl | hq
+        · rw [hp] at hqJ; cases hqJ; exact absurd hJ hIZ.1
+        · exact ⟨q, Or.inr hq, hqJ⟩
+      · have : J ∈ holeIds (D0 ++ tail) := by simp [holeIds_append, hJ]
+        obtain ⟨q, hq, hqJ⟩ := (hmem J).1 this
+        simp only [List.mem_cons] at hq
+        rcases hq with rfl | hq
+        · rw [hp] at hqJ; cases hqJ; exact absurd hJ hIZ.2
+        · exact ⟨q, Or.inr hq, hqJ⟩
+    · rintro ⟨q, hq | hq, hqJ⟩
+      · have : some J ∈ psC.map (·.id) := List.mem_map.2 ⟨q, (hcs q).1 hq, hqJ⟩
+        rw [← hlink] at this
+        obtain ⟨J', hJ', he⟩ := List.mem_map.1 this
+        cases he
+        exact Or.inl (Or.inl (Or.inr hJ'))
+      · have hJD : J ∈ holeIds (D0 ++ tail) := (hmem J).2 ⟨q, by simp [hq], hqJ⟩
+        have hne : J ≠ I := by
+          intro he; subst he
+          simp only [List.map_cons, List.nodup_cons, List.mem_map, not_exists, not_and] at hout
+          exact hout.1 q hq (hqJ.trans hp.symm)
+        rw [h1] at hJD
+        simp only [holeIds_append, holeIds, List.mem_append, List.mem_cons] at hJD
+        rcases hJD with (hJD | hJD | hJD) | hJD
+        · exact Or.inl (Or.inl (Or.inl hJD))
+        · exact absurd hJD hne
+        · exact Or.inl (Or.inr hJD)
+        · exact Or.inr hJD
+
+
+theorem pp_trans {A B C : List Nat} (h1 : properPrefix A B) (h2 : properPrefix B C) : properPrefix A C := by
+  obtain ⟨t, ht, rfl⟩ := h1
+  obtain ⟨u, _, rfl⟩ := h2
+  exact ⟨t ++ u, by simp [ht], by simp⟩
+
+theorem pp_snoc (A : List Nat) (j : Nat) : properPrefix A (A ++ [j]) := ⟨[j], by simp, rfl⟩
+
+theorem pp_of_snoc {Q I : List Nat} {i : Nat} (h : properPrefix Q (I ++ [i])) : Q = I ∨ properPrefix Q I := by
+  obtain ⟨t, ht, he⟩ := h
+  rcases List.eq_nil_or_concat t with rfl | ⟨t', x, rfl⟩
+  · exact absurd rfl ht
+  · rw [List.concat_eq_append, ← List.append_assoc] at he
+    have := List.append_inj' he rfl
+    by_cases ht' : t' = []
+    · subst ht'; exact Or.inl (by simpa using this.1.symm)
+    · exact Or.inr ⟨t', ht', this.1⟩
+
+theorem not_pp_snoc_snoc {I : List Nat} {i j : Nat} : ¬ properPrefix (I ++ [j]) (I ++ [i]) := by
+  rintro ⟨t, ht, he⟩
+  have hl : (I ++ [i]).length = (I ++ [j] ++ t).length := congrArg List.length he
+  simp only [List.length_append, List.length_cons, List.length_nil] at hl
+  exact ht (List.length_eq_zero_iff.1 (by omega))
+
+theorem not_pp_self_snoc {I : List Nat} {j : Nat} : ¬ properPrefix (I ++ [j]) I := by
+  rintro ⟨t, _, he⟩
+  have hl : I.length = (I ++ [j] ++ t).length := congrArg List.length he
+  simp only [List.length_append, List.length_cons, List.length_nil] at hl
+  omega
+
+/-- re-establishing the invariant after the node `p` (id `I`) at the head of the queue has been resolved into the
+    segments `segsT` and the child nodes `psC`, given what the concrete step did to the buffer -/
+theorem OInv.resolved {E Y b b' ys bs bs' tail σ p rest I segsT psC cs'}
+    (h : OInv E Y b ys bs tail [] σ) (hpo : b.pendingOoo = p :: rest) (hpI : p.id = some I)
+    (htail : segsStr tail = [])
+    (_hokT : ∀ g ∈ segsT, g.ok) (hlink : (holeIds segsT).map some = psC.map (·.id)) (hokC : ∀ q ∈ psC, NodeOk q)
+    (hfill : ∀ σ', Knows σ' psC → fill σ' segsT = nodeDoc p)
+    (hshape : ∀ i ∈ holeIds segsT, ∃ j, 1 ≤ j ∧ i = I ++ [j]) (hndC : (holeIds segsT).Nodup)
+    (hB' : b'.syncBuf = itemsStr bs') (hP' : b'.pending = none)
+    (hC' : b'.chunks = cs'.map Chunk.ooo ++ tailChunk (segsStr tail)) (hpo' : b'.pendingOoo = rest)
+    (hperm : cs'.Perm psC)
+    (hcl : clientS [] (ys ++ bs') = substHole I segsT (clientS [] (ys ++ bs)))
+    (hok' : ∀ i ∈ ys ++ bs', i.ok)
+    (hall : ∀ K ∈ allIds (ys ++ bs'), K ∈ allIds (ys ++ bs) ∨ K ∈ holeIds segsT)
+    (hnd' : (allIds (ys ++ bs') ++ holeIds tail).Nodup)
+    (htpl : ∀ K ∈ tplIds (ys ++ bs'), K ∈ tplIds (ys ++ bs) ∨ K = I) (hndt' : (tplIds (ys ++ bs')).Nodup)
+    (hin' : ∀ J ∈ contentIds bs', ∃ q ∈ cs', q.id = some J) :
+    ∃ σ', OInv E Y b' ys bs' tail cs' σ' := by
+  have hpmem : p ∈ [] ++ b.pendingOoo := by simp [hpo]
+  have hholeT : holeIds tail = [] := holeIds_of_empty htail
+  have hcs : ∀ q, q ∈ cs' ↔ q ∈ psC := fun q => hperm.mem_iff
+  have hID0 : I ∈ holeIds (clientS [] (ys ++ bs)) := by
+    have := (h.mem I).2 ⟨p, hpmem, hpI⟩
+    simpa [holeIds_append, hholeT] using this
+  have hIall : I ∈ allIds (ys ++ bs) := by
+    rcases holeIds_clientS _ _ hID0 with h0 | h0
+    · simp [holeIds] at h0
+    · exact h0
+  have hndD : (holeIds (clientS [] (ys ++ bs) ++ tail)).Nodup := by
+    rw [holeIds_append]
+    exact nodup_clientS _ _ _ (by simpa [holeIds] using h.ndText)
+  -- the children are fresh
+  have hchild : ∀ K ∈ holeIds segsT, K ∉ allIds (ys ++ bs) ++ holeIds tail ++ tplIds (ys ++ bs) := by
+    intro K hK hmemK
+    obtain ⟨j, _, rfl⟩ := hshape K hK
+    exact h.fresh p hpmem I hpI _ hmemK (pp_snoc I j)
+  have hchildD : ∀ K ∈ holeIds segsT, K ∉ holeIds (clientS [] (ys ++ bs) ++ tail) := by
+    intro K hK hm
+    rw [holeIds_append] at hm
+    rcases List.mem_append.1 hm with hm | hm
+    · rcases holeIds_clientS _ _ hm with h0 | h0
+      · simp [holeIds] at h0
+      · exact hchild K hK (by simp [h0])
+    · exact hchild K hK (by simp [hm])
+  have hout : ((p :: rest).map (·.id)).Nodup := by simpa [hpo] using h.ndOut
+  obtain ⟨σ', hk', hf', hm'⟩ := resolve_sem (σ := σ) (tail := tail) (rest := rest) (cs' := cs') hID0 hndD hpI
+    (by simpa [hpo] using h.mem) hout (by simpa [hpo] using h.knows) hlink hndC hfill hchildD hcs
+  have hidC : ∀ q ∈ psC, ∃ K, q.id = some K ∧ K ∈ holeIds segsT := by
+    intro q hq
+    have : q.id ∈ (holeIds segsT).map some := by rw [hlink]; exact List.mem_map.2 ⟨q, hq, rfl⟩
+    obtain ⟨K, hK, he⟩ := List.mem_map.1 this
+    exact ⟨K, he.symm, hK⟩
+  have hrestJ : ∀ q ∈ rest, ∀ J, q.id = some J → J ∈ allIds (ys ++ bs) ∧ J ≠ I := by
+    intro q hq J hJ
+    have hm := (h.mem J).2 ⟨q, by simp [hpo, hq], hJ⟩
+    rw [holeIds_append, hholeT, List.append_nil] at hm
+    refine ⟨?_, ?_⟩
+    · rcases holeIds_clientS _ _ hm with h0 | h0
+      · simp [holeIds] at h0
+      · exact h0
+    · intro he; subst he
+      simp only [List.map_cons, List.nodup_cons, List.mem_map, not_exists, not_and] at hout
+      exact hout.1 q hq (hJ.trans hpI.symm)
+  refine ⟨σ', h.hY, hB', hP', hC', hok', h.okT, hnd', hndt', ?_, ?_, ?_, ?_, ?_, ?_, ?_, hin'⟩
+  · -- okN
+    intro q hq
+    rw [hpo'] at hq
+    rcases List.mem_append.1 hq with hq | hq
+    · obtain ⟨K, hK, _⟩ := hidC q ((hcs q).1 hq)
+      exact ⟨hokC q ((hcs q).1 hq), K, hK⟩
+    · exact h.okN q (by simp [hpo, hq])
+  · -- ndOut
+    rw [hpo', List.map_append, List.nodup_append]
+    refine ⟨?_, (List.nodup_cons.1 hout).2, ?_⟩
+    · rw [List.Perm.nodup_iff (hperm.map _), ← hlink]; exact nodup_map_some hndC
+    · intro a ha a' ha' he
+      obtain ⟨q, hq, rfl⟩ := List.mem_map.1 ha
+      obtain ⟨q', hq', rfl⟩ := List.mem_map.1 ha'
+      obtain ⟨K, hK, hKm⟩ := hidC q ((hcs q).1 hq)
+      have := hrestJ q' hq' K (he ▸ hK)
+      exact hchild K hKm (by simp [this.1])
+  · rw [hcl, hpo']; exact hm'
+  · rw [hpo']; exact hk'
+  · rw [hcl, hf']; exact h.doc
+  · -- outTpl
+    intro q hq J hJ hmem
+    rw [hpo'] at hq
+    rcases htpl J hmem with hold | rfl
+    · rcases List.mem_append.1 hq with hq | hq
+      · obtain ⟨K, hK, hKm⟩ := hidC q ((hcs q).1 hq)
+        rw [hJ] at hK; cases hK
+        exact hchild J hKm (by simp [hold])
+      · exact h.outTpl q (by simp [hpo, hq]) J hJ hold
+    · rcases List.mem_append.1 hq with hq | hq
+      · obtain ⟨K, hK, hKm⟩ := hidC q ((hcs q).1 hq)
+        rw [hJ] at hK; cases hK
+        obtain ⟨j, _, he⟩ := hshape J hKm
+        have := congrArg List.length he
+        simp at this
+      · exact (hrestJ q hq J hJ).2 rfl
+  · -- fresh
+    intro q hq Q hQ K hK
+    rw [hpo'] at hq
+    have hKcases : K ∈ allIds (ys ++ bs) ++ holeIds tail ++ tplIds (ys ++ bs) ∨ K ∈ holeIds segsT := by
+      simp only [List.mem_append] at hK ⊢
+      rcases hK with (hK | hK) | hK
+      · rcases hall K hK with h0 | h0
+        · exact Or.inl (Or.inl (Or.inl h0))
+        · exact Or.inr h0
+      · exact Or.inl (Or.inl (Or.inr hK))
+      · rcases htpl K hK with h0 | rfl
+        · exact Or.inl (Or.inr h0)
+        · exact Or.inl (Or.inl (Or.inl hIall))
+    rcases List.mem_append.1 hq with hq | hq
+    · obtain ⟨K', hK', hKm'⟩ := hidC q ((hcs q).1 hq)
+      rw [hQ] at hK'; cases hK'
+      obtain ⟨j, _, rfl⟩ := hshape Q hKm'
+      rcases hKcases with hold | hnew
+      · intro hpp
+        exact h.fresh p hpmem I hpI K hold (pp_trans (pp_snoc I j) hpp)
+      · obtain ⟨i, _, rfl⟩ := hshape K hnew
+        exact not_pp_snoc_snoc
+    · rcases hKcases with hold | hnew
+      · exact h.fresh q (by simp [hpo, hq]) Q hQ K hold
+      · obtain ⟨i, _, rfl⟩ := hshape K hnew
+        intro hpp
+        rcases pp_of_snoc hpp with rfl | hpp'
+        · exact (hrestJ q hq Q hQ).2 rfl
+        · exact h.fresh q (by simp [hpo, hq]) Q hQ I (by simp [hIall]) hpp'
 
 end Leptos.Stream
